@@ -190,7 +190,35 @@ func C18(run *vf.Run) {
 				}
 				switch op {
 				case "RB":
-					b, _ := io.ReadAll(r.Body)
+					var b []byte
+					switch n {
+					case 1: // sniff a few bytes, copy the rest (io.Copy uses the reader's WriteTo when it has one)
+						head := make([]byte, 3)
+						k, _ := io.ReadFull(r.Body, head)
+						var rest bytes.Buffer
+						_, _ = io.Copy(&rest, r.Body)
+						b = append(head[:k], rest.Bytes()...)
+					case 2: // small reads
+						small := make([]byte, 3)
+						for {
+							k, err := r.Body.Read(small)
+							b = append(b, small[:k]...)
+							if err != nil {
+								break
+							}
+						}
+					case 3:
+						var all bytes.Buffer
+						_, _ = io.Copy(&all, r.Body)
+						b = all.Bytes()
+					case 4:
+						one := make([]byte, 1)
+						k, _ := r.Body.Read(one)
+						rest, _ := io.ReadAll(r.Body)
+						b = append(one[:k], rest...)
+					default:
+						b, _ = io.ReadAll(r.Body)
+					}
 					rec.mu.Lock()
 					rec.read[id] = b
 					rec.mu.Unlock()
